@@ -438,6 +438,14 @@ class Logix( Message_Router ):
             beg,end,endactual,offremains,max_size \
                                         = self.reply_elements( attribute, data, context )
             log.debug( "Replying w/ elements [%3d-%-3d/%3d] for %r", beg, end, endactual, data )
+
+            # Valid request; return any desired error code (normally should be 0) -- before anything
+            # is stored: a request answered with a failure status leaves the Tag as it was.
+            if attribute.error:
+                data.status		= attribute.error
+                data.pop( 'status_ext' )
+                raise AssertionError( "Forced failure due to configured Attribute error code %r" % attribute.error )
+
             if data.service in (self.RD_TAG_RPY, self.RD_FRG_RPY):
                 # Read Tag [Fragmented]
                 recs			= attribute[beg:end]
@@ -476,11 +484,6 @@ class Logix( Message_Router ):
                 attribute[beg:end]	= data[context].data
                 data.status		= 0x00
                 data.pop( 'status_ext' )
-
-            # Successful completion; return any desired error code (normally should be 0)
-            if attribute.error:
-                data.status		= attribute.error
-                raise AssertionError( "Forced failure due to configured Attribute error code %r" % attribute.error )
 
         except Exception as exc:
             # On Exception, if we haven't specified a more detailed error code, return General
